@@ -1,8 +1,10 @@
 package main
 
 import (
+	"bytes"
 	"fmt"
 	"math/big"
+	"sync"
 
 	"go.dedis.ch/kyber/v4"
 	"go.dedis.ch/kyber/v4/share"
@@ -113,6 +115,68 @@ func c07Arith(r *mon.R, g *groups.G, light bool, idx int) {
 		}
 		// the sum as an object of its own, committed under every base class
 		bat.pri("PriPoly.Add", sum, wantSum, useBases)
+	}
+
+	// ---- operands created through two different group OBJECTS of the same group (a second suite instance): the library
+	// compares groups by name, so addition must work and give the same polynomial
+	if g2 := c07TwinGroup(g); g2 != nil {
+		ss := make([]kyber.Scalar, t1)
+		for i := range ss {
+			ss[i] = g2.ScalarFromBig(rq1.C[i])
+		}
+		q1b := share.CoefficientsToPriPoly(g2.Grp, ss)
+		r.Eval("arith/Add/operands-from-two-group-objects", desc("addtwin"), nt)
+		sB, errB := p.Add(q1b)
+		sC, errC := q1b.Add(p)
+		if errB != nil || errC != nil || sB == nil || sC == nil {
+			r.Violation("C07/"+g.Name+"/PriPoly.Add/two-group-objects/error", "PriPoly.Add fails for operands created through two objects of the same group", det(map[string]any{"err": fmt.Sprint(errB, errC)}))
+		} else if !c07Coeffs(g, sB).Equal(wantSum) || !c07Coeffs(g, sC).Equal(wantSum) {
+			r.Violation("C07/"+g.Name+"/PriPoly.Add/two-group-objects/wrong-coefficients", "sum of operands created through two objects of the same group differs from the reference", det(nil))
+		}
+		cpA, cqB := p.Commit(nil), q1b.Commit(nil)
+		pB, errP := cpA.Add(cqB)
+		pC, errQ := cqB.Add(cpA)
+		r.Eval("arith/PubPoly.Add/operands-from-two-group-objects", desc("paddtwin"), nt)
+		if errP != nil || errQ != nil || pB == nil || pC == nil {
+			r.Violation("C07/"+g.Name+"/PubPoly.Add/two-group-objects/error", "PubPoly.Add fails for operands created through two objects of the same group", det(map[string]any{"err": fmt.Sprint(errP, errQ)}))
+		} else {
+			i := uint32(1 + rng.IntN(20))
+			want := g.Point().Mul(g.ScalarFromBig(wantSum.EvalIndex(i)), nil)
+			if ok, why := c07SamePt(pB.Eval(i).V, want); !ok {
+				r.Violation("C07/"+g.Name+"/PubPoly.Add/two-group-objects/wrong-evaluation", "sum of commitments created through two objects of the same group evaluates wrongly", det(map[string]any{"i": i, "why": why}))
+			}
+			if ok, why := c07SamePt(pC.Eval(i).V, want); !ok {
+				r.Violation("C07/"+g.Name+"/PubPoly.Add/two-group-objects/wrong-evaluation", "sum of commitments created through two objects of the same group evaluates wrongly (swapped)", det(map[string]any{"i": i, "why": why}))
+			}
+		}
+	}
+
+	// ---- values handed out by Eval / Shares belong to the caller: altering them must not change what the polynomial
+	// hands out next time
+	{
+		i := uint32(rng.IntN(12))
+		cp := p.Commit(nil)
+		e1 := cp.Eval(i)
+		before := groups.Enc(e1.V)
+		e1.V.Add(e1.V, g.Point().Base())
+		e1.I += 7
+		e2 := cp.Eval(i)
+		r.Eval("arith/Eval/result-belongs-to-caller", desc(fmt.Sprintf("evalfresh%d", i)), nt)
+		if !bytes.Equal(groups.Enc(e2.V), before) || e2.I != i {
+			r.Violation("C07/"+g.Name+"/PubPoly.Eval/altered-result-comes-back", "a PubShare returned by Eval and then altered by the caller is handed out again by the next Eval", det(map[string]any{"i": i}))
+		}
+		sh := cp.Shares(4)
+		b2 := groups.Enc(sh[2].V)
+		sh[2].V.Add(sh[2].V, g.Point().Base())
+		if sh3 := cp.Shares(4); !bytes.Equal(groups.Enc(sh3[2].V), b2) {
+			r.Violation("C07/"+g.Name+"/PubPoly.Shares/altered-result-comes-back", "a PubShare returned by Shares and then altered by the caller is handed out again", det(nil))
+		}
+		x1 := p.Eval(i)
+		bx := groups.Enc(x1.V)
+		x1.V.Add(x1.V, g.Scalar().One())
+		if x2 := p.Eval(i); !bytes.Equal(groups.Enc(x2.V), bx) {
+			r.Violation("C07/"+g.Name+"/PriPoly.Eval/altered-result-comes-back", "a PriShare returned by Eval and then altered by the caller is handed out again by the next Eval", det(map[string]any{"i": i}))
+		}
 	}
 
 	// ---- addition of public polynomials, under every base class and both operand orders
@@ -273,4 +337,22 @@ func c07Arith(r *mon.R, g *groups.G, light bool, idx int) {
 		}
 	}
 	r.SampleClass("arith/"+g.Name, map[string]any{"kind": "arith", "group": g.Name, "t_p": t1, "t_q": t2, "p": c07Big(rp.C), "q": c07Big(rq.C)})
+}
+
+var c07TwinOnce sync.Once
+var c07Twins map[string]*groups.G
+
+// c07TwinGroup returns the group of the same name from a second, independently constructed registry (other suite objects).
+func c07TwinGroup(g *groups.G) *groups.G {
+	c07TwinOnce.Do(func() {
+		c07Twins = map[string]*groups.G{}
+		for _, x := range groups.All() {
+			c07Twins[x.Name] = x
+		}
+	})
+	t := c07Twins[g.Name]
+	if t == nil || t.Grp == g.Grp {
+		return nil
+	}
+	return t
 }
